@@ -1710,7 +1710,8 @@ def c10b(chk):
             continue
         found = True
         srcs = fmt_arg_sources(h, t)
-        ok = "sfs_core::input::site::reader::Reader::current_contig" in srcs and "sfs_core::input::site::reader::Reader::current_position" in srcs and len(phs) >= 2
+        # (both displayed directly, or through one value formatted from the two: `let site = format!("{}:{}", contig, position)`)
+        ok = "sfs_core::input::site::reader::Reader::current_contig" in srcs and "sfs_core::input::site::reader::Reader::current_position" in srcs and len(phs) >= 1
         chk.ob("C10.b", "handle_skipped_site/strict-error-names-contig-and-position", ok, h.loc(b),
                "the strict-mode error must display current_contig() and current_position() (sources: %s)" % sorted(srcs))
     if not found:
